@@ -145,7 +145,9 @@ func runHandshakeScenario(t *testing.T, l *evlog, q *oracle, cfg simCfg, p hsPar
 			if s.hsReturned(0) && s.hsErr[0] != nil {
 				break
 			}
-			if len(s.recvMsgs[1]) > 0 {
+			if len(s.recvMsgs[1]) > 0 && s.hsReturned(0) {
+				// (a stale DATA packet can reach a server that stale handshake packets completed: that is no reason
+				// to stop while the client is still shaking hands)
 				break
 			}
 			if s.hsReturned(0) && s.hsReturned(1) && !p.sendData && cfg.ping == 0 {
@@ -266,7 +268,20 @@ func TestGenC10(t *testing.T) {
 		// convergence: transport reliable for > 100 s, client active (data or keepalive)
 		if p.sendData || cfg.ping > 0 {
 			serverErr := res.hsRet[1] && !res.hsOK[1]
-			conv := (res.hsOK[0] && res.hsOK[1] && (res.delivered || !p.sendData)) || res.clientErr || res.closedVisibly || serverErr
+			// the server's connection was torn down after its handshake (a stale FIN, or the real SYN arriving in
+			// the data phase of a handshake that stale packets had completed): its calls fail, which is the error
+			// "on the side that cannot proceed"; the application accepts again
+			serverClosedVisibly := false
+			hs1 := false
+			for _, e := range l.keep {
+				if e == "HS 1 ok" {
+					hs1 = true
+				}
+				if hs1 && strings.HasPrefix(e, "RR 1 err:") && e != "RR 1 err:recv-timeout" {
+					serverClosedVisibly = true
+				}
+			}
+			conv := (res.hsOK[0] && res.hsOK[1] && (res.delivered || !p.sendData)) || res.clientErr || res.closedVisibly || serverErr || serverClosedVisibly
 			st := func(ret, ok bool) string {
 				if !ret {
 					return "pending"
